@@ -129,9 +129,43 @@ type VCtx struct {
 	assumed     map[string]bool
 	strConsts   map[string]Term
 	ufs         map[string]bool
+	sorts       map[string]string
 }
 
+// bvWidthOf: width of a term that is a declared bit-vector constant or a select from a declared array
+func (c *VCtx) bvWidthOf(x string) (int, bool) {
+	if c.sorts == nil {
+		return 0, false
+	}
+	name := x
+	if s, ok := c.sorts[x]; ok {
+		return isBVw(s)
+	}
+	if strings.HasPrefix(x, "(select ") {
+		f := strings.Fields(x[len("(select "):])
+		if len(f) > 0 {
+			name = f[0]
+		}
+		if s, ok := c.sorts[name]; ok && strings.HasPrefix(s, "(Array Int ") {
+			return isBVw(strings.TrimSuffix(strings.TrimPrefix(s, "(Array Int "), ")"))
+		}
+		return 0, false
+	}
+	if s, ok := c.sorts[name]; ok {
+		return isBVw(s)
+	}
+	return 0, false
+}
+
+func isBVw(s string) (int, bool) { return isBV(s) }
+
 func (c *VCtx) fresh(hint, sort string) Term {
+	if c.sorts == nil {
+		c.sorts = map[string]string{}
+	}
+	defer func() {
+		c.sorts[fmt.Sprintf("|%s!%d|", sanitize(hint), c.nfresh)] = sort
+	}()
 	c.nfresh++
 	hint = sanitize(hint)
 	name := fmt.Sprintf("%s!%d", hint, c.nfresh)
@@ -483,6 +517,9 @@ func (s *State) zeroTreeK(t types.Type, ks string) SeqTreeK {
 		es = SRef
 	}
 	srt := "(Array " + ks + " " + es + ")"
+	if es == SRef || es == SStr {
+		return SeqTreeK{Arr: Term{"zeroarr_" + ks + "_" + es, srt}, Typ: t}
+	}
 	return SeqTreeK{Arr: Term{"((as const " + srt + ") " + zeroOf(es).S + ")", srt}, Typ: t}
 }
 
@@ -551,7 +588,7 @@ func (s *State) toLeaf(v Val, sort string) Term {
 }
 
 func (s *State) treeStore(tr SeqTree, idx Term, v Val) SeqTree {
-	if tr.Fields != nil {
+	if tr.Fields != nil || isStruct(tr.Typ) {
 		sv, ok := v.(StructV)
 		out := SeqTree{Typ: tr.Typ}
 		for i, f := range tr.Fields {
@@ -582,7 +619,7 @@ func (s *State) treeUpdate(tr SeqTree, idx Term, rest []Step, nv Val) SeqTree {
 }
 
 func (s *State) leaves(tr SeqTree) []Term {
-	if tr.Fields != nil {
+	if tr.Fields != nil || isStruct(tr.Typ) {
 		var out []Term
 		for _, f := range tr.Fields {
 			out = append(out, s.leaves(f)...)
@@ -593,7 +630,7 @@ func (s *State) leaves(tr SeqTree) []Term {
 }
 
 func mapTree(tr SeqTree, f func(Term) Term) SeqTree {
-	if tr.Fields != nil {
+	if tr.Fields != nil || isStruct(tr.Typ) {
 		out := SeqTree{Typ: tr.Typ}
 		for _, x := range tr.Fields {
 			out.Fields = append(out.Fields, mapTree(x, f))
@@ -604,7 +641,7 @@ func mapTree(tr SeqTree, f func(Term) Term) SeqTree {
 }
 
 func zipTree(a, b SeqTree, f func(x, y Term)) {
-	if a.Fields != nil {
+	if a.Fields != nil || isStruct(a.Typ) {
 		for i := range a.Fields {
 			zipTree(a.Fields[i], b.Fields[i], f)
 		}
